@@ -61,8 +61,14 @@ def rand_coeffs(rng, g, tscale=2.0):
     return c
 
 
-def rand_tangent(rng, g, scale=1.0):
-    return [rng.uniform(-1, 1) * scale for _ in range(DOF[g])]
+ROT_IDX = {0: [0], 1: [0, 1, 2], 2: [2], 3: [3, 4, 5], 4: [1], 5: [7, 8, 9], 6: [6, 7, 8], 8: [], 9: [0, 1, 2],
+           10: [2, 3, 9, 10, 11], 11: [0, 1, 2, 6, 9], 13: [0, 1, 2, 3, 4, 5]}
+
+
+def rand_tangent(rng, g, scale=1.0, tscale=None):
+    """rotation components scaled by `scale`, translation-like components by `tscale` (default: the same)"""
+    ts = scale if tscale is None else tscale
+    return [rng.uniform(-1, 1) * (scale if i in ROT_IDX[g] else ts) for i in range(DOF[g])]
 
 
 def hexs(xs):
@@ -89,7 +95,7 @@ def program_lines(rng, g, ops):
     lines = ["reset"]
     for r_ in range(4):
         lines.append(f"sete {r_} {hexs(rand_coeffs(rng, g))}")
-        lines.append(f"sett {r_} {hexs(rand_tangent(rng, g, rng.choice([1e-6, 0.1, 1.0])))}")
+        lines.append(f"sett {r_} {hexs(rand_tangent(rng, g, rng.choice([1e-6, 2e-5, 9e-5, 2e-4, 1e-2, 0.1, 1.0]), rng.choice([None, 1.0, 0.3])))}")
     for op, a, b, c in ops:
         lines.append(f"{op} {a} {b} {c}")
     return lines
@@ -101,6 +107,10 @@ def chain_lines(rng, g, N, kind):
     if kind == "mul":
         lines.append(f"repeat {N} muleq 0 1 0")
     elif kind == "plus":
+        lines.append(f"repeat {N} pluseq 0 0 0")
+    elif kind == "plus_small":
+        # increments whose rotation part sits in the small-angle branches of exp (|theta| ~ 1e-5 .. 1e-4)
+        lines[3] = f"sett 0 {hexs(rand_tangent(rng, g, 8e-5, 0.5))}"
         lines.append(f"repeat {N} pluseq 0 0 0")
     elif kind == "ginvg":
         for _ in range(min(N, 300)):
@@ -147,7 +157,7 @@ def check(prop, tier, seed, replay=None):
             jobs.append((g, lines, 1, {"kind": "TLC programs"}))
             N = 1000 if quick else 100000
             every = 50 if quick else 500
-            kinds = ("mul", "plus") if quick else ("mul", "plus", "ginvg", "cast")
+            kinds = ("mul", "plus", "plus_small") if quick else ("mul", "plus", "plus_small", "ginvg", "cast")
             for kind in kinds:
                 jobs.append((g, chain_lines(rng, g, N, kind), every, {"kind": f"chain {kind} x{N}"}))
             jobs.append((g, ode_lines(rng, g, quick), 1, {"kind": "odeint"}))
